@@ -2,7 +2,7 @@
 From Coq Require Import ZArith List Bool Lia ZifyBool Arith.
 From Coq Require Import QArith.
 From NV.Generated Require Import GridHash.
-From NV.C11 Require Import Model Proofs Proofs2 ModelQ Proofs3 Proofs4.
+From NV.C11 Require Import Model Proofs Proofs2 ModelQ Proofs3 Proofs4 Proofs5.
 Close Scope Q_scope.
 Import ListNotations.
 Open Scope Z_scope.
@@ -33,10 +33,12 @@ Theorem sp_certificate_complete :
 Proof. exact sp_check_complete_lemma. Qed.
 Print Assumptions sp_certificate_complete.
 
-(* The dijkstra model (code as written) is NOT proved correct outright - it is
-   in fact wrong on parallel edges (below).  What holds for every input: when
-   the model's output passes the proved-sound check (evaluated per case by the
-   harness), it is the shortest-path distance function. *)
+(* The dijkstra model (code as written, after commit 34ff1fe: relaxation by
+   np.minimum.at) is not proved correct outright for all graphs (that needs the
+   full settled/frontier invariant of lazy-deletion Dijkstra; not done).  What
+   holds for every input: when the model's output passes the proved sound AND
+   complete check (evaluated per case by the harness), it is the shortest-path
+   distance function - and by completeness a correct output is never rejected. *)
 Theorem dijkstra_checked_partial :
   forall V E order seeds,
   sp_check V E seeds (dijkstra_model V E order seeds) = true ->
@@ -44,26 +46,26 @@ Theorem dijkstra_checked_partial :
 Proof. intros V E order seeds. apply sp_check_sound. Qed.
 Print Assumptions dijkstra_checked_partial.
 
-(* FINDING: vectorised relaxation `dist[l[who]] = newdist[who]` keeps the LAST
-   of several parallel edges u->v, not the lightest.  Witness: V=2, edges
-   0->1 (w=1), 0->1 (w=2), seed 0: the code returns dist[1] = 2. *)
-Theorem dijkstra_parallel_edges_refuted :
-  exists V E order seeds,
-    order_ok V E order = true /\ (forall e, In e E -> 0 <= ew e) /\
-    ~ is_sp_dist E seeds (getd (dijkstra_model V E order seeds)).
+(* Former finding dijkstra/parallel-edges (fixed in 34ff1fe): on the old
+   witness - edges 0->1 (w=1), 0->1 (w=2) in either order - the model now
+   returns the true distances. *)
+Theorem dijkstra_parallel_edges_witness_correct :
+  forall E, E = [(0%nat, 1%nat, 1); (0%nat, 1%nat, 2)] \/ E = [(0%nat, 1%nat, 2); (0%nat, 1%nat, 1)] ->
+  dijkstra_model 2 E [0%nat; 1%nat] [0%nat] = [Some 0; Some 1] /\
+  is_sp_dist E [0%nat] (getd (dijkstra_model 2 E [0%nat; 1%nat] [0%nat])).
 Proof.
-  exists 2%nat, [(0%nat, 1%nat, 1); (0%nat, 1%nat, 2)], [0%nat; 1%nat], [0%nat].
-  split; [vm_compute; reflexivity|]. split.
-  - intros e [<-|[<-|[]]]; cbn; lia.
-  - intros H.
-    assert (M : dijkstra_model 2 [(0%nat, 1%nat, 1); (0%nat, 1%nat, 2)] [0%nat; 1%nat] [0%nat]
-                = [Some 0; Some 2]) by (vm_compute; reflexivity).
-    rewrite M in H. specialize (H 1%nat). cbn [getd nth] in H. destruct H as [_ H].
-    assert (P : path_len [(0%nat, 1%nat, 1); (0%nat, 1%nat, 2)] 0 1 (0 + 1)).
-    { eapply pl_step with (e := (0%nat, 1%nat, 1)); [constructor|left; reflexivity| |]; reflexivity. }
-    specialize (H 0%nat _ (or_introl eq_refl) P). lia.
+  intros E [->| ->]; (split; [vm_compute; reflexivity|apply (sp_check_sound 2); vm_compute; reflexivity]).
 Qed.
-Print Assumptions dijkstra_parallel_edges_refuted.
+Print Assumptions dijkstra_parallel_edges_witness_correct.
+
+(* Former finding dijkstra/no-edges-raises (fixed in 37d1d2d), now proved
+   outright: on EVERY edgeless graph and every seed set the model returns the
+   distance function (0 at the seeds, inf elsewhere). *)
+Theorem dijkstra_no_edges_correct :
+  forall V seeds, (forall s, In s seeds -> (s < V)%nat) ->
+  is_sp_dist [] seeds (getd (dijkstra_model V [] [] seeds)).
+Proof. exact dijkstra_no_edges_lemma. Qed.
+Print Assumptions dijkstra_no_edges_correct.
 
 (* ---- connected components ------------------------------------------ *)
 Theorem cc_certificate_sound :
@@ -101,41 +103,42 @@ Theorem voronoi_checked_partial :
 Proof. intros V E order seeds. apply vor_check_sound. Qed.
 Print Assumptions voronoi_checked_partial.
 
-(* FINDING: a graph without edges has a perfectly good distance function
-   (0 at the seeds, inf elsewhere) but the code raises (None). *)
-Theorem dijkstra_no_edges_refuted :
-  exists V seeds d, dijkstra_code V [] [] seeds = None /\ is_sp_dist [] seeds (getd d).
-Proof.
-  exists 2%nat, [0%nat], [Some 0; None]. split; [reflexivity|].
-  apply (sp_check_sound 2 [] [0%nat]). vm_compute. reflexivity.
-Qed.
-Print Assumptions dijkstra_no_edges_refuted.
-
 (* ---- kruskal --------------------------------------------------------- *)
-(* FINDING: on a graph with k > 1 components the 2V-2 preallocated rows are
-   only filled up to 2(V-k); the result contains (0,0) rows of weight 0 that
-   are not edges of the graph (a self-loop: not a forest, not a subgraph). *)
-Theorem kruskal_padding_refuted :
-  exists V E iw k, cc_model V E = map Z.of_nat (seq 0 k) /\
-    In (0%nat, 0%nat, 0) (kruskal_model V E iw k) /\ ~ In (0%nat, 0%nat, 0) E.
+(* Former finding kruskal/disconnected-padding-edges (fixed in d82df40), now for
+   ALL inputs: the result has exactly 2(V-k) rows, and every row is an edge of
+   the graph or its reversal (or the out-of-range default when the argsort
+   oracle `iw` is not a permutation of the edge indices). *)
+Theorem kruskal_returns_two_rows_per_tree_edge :
+  forall V E iw k, length (kruskal_model V E iw k) = (2 * (V - k))%nat.
+Proof. exact kruskal_length. Qed.
+Print Assumptions kruskal_returns_two_rows_per_tree_edge.
+
+Theorem kruskal_rows_are_graph_edges :
+  forall V E iw k x, In x (kruskal_model V E iw k) ->
+  x = (0%nat, 0%nat, 0) \/ x = erev (0%nat, 0%nat, 0) \/ exists e, In e E /\ (x = e \/ x = erev e).
 Proof.
-  exists 2%nat, [], [], 2%nat. split; [vm_compute; reflexivity|]. split; [vm_compute; auto|intros []].
+  intros V E iw k x H. unfold kruskal_model in H. apply kr_loop_edges in H.
+  destruct H as [[]|H]; exact H.
 Qed.
-Print Assumptions kruskal_padding_refuted.
+Print Assumptions kruskal_rows_are_graph_edges.
 
 (* ---- builders --------------------------------------------------------- *)
-(* FINDING: `dist < sorted_dist[k+1]` drops every candidate tied with the
-   (k+1)-th nearest.  D = squared distances of the unit-square corners
-   (0,0),(1,0),(0,1),(1,1); k = 1 < n-1: every vertex ends with 0 < k neighbours. *)
-Theorem knn_ties_fewer_than_k_refuted :
-  exists D k, (k < length D - 1)%nat /\
-    forall i, (i < length D)%nat -> (row_degree (nth i (knn_model D k) []) < k)%nat.
-Proof.
-  exists [[0;1;1;2]; [1;0;2;1]; [1;2;0;1]; [2;1;1;0]], 1%nat. split; [cbn; lia|].
-  intros i Hi. cbn in Hi.
-  destruct i as [|[|[|[|i]]]]; try lia; vm_compute; lia.
-Qed.
-Print Assumptions knn_ties_fewer_than_k_refuted.
+(* Former finding knn/ties-fewer-than-k (fixed in fd0cf56), now for ALL distance
+   matrices (no symmetry or zero-diagonal assumption), all k and every vertex
+   r: the returned graph gives r at least min(k, n-1) neighbours - under ties
+   at the k-th neighbour and with coincident points. *)
+Theorem knn_every_vertex_has_k_neighbours :
+  forall D k r, (r < length D)%nat ->
+  (Nat.min k (length D - 1) <= row_degree (nth r (knn_model D k) []))%nat.
+Proof. exact knn_degree. Qed.
+Print Assumptions knn_every_vertex_has_k_neighbours.
+
+(* the old witnesses: unit-square corners with k = 1 (all four ties kept), three
+   coincident points and one far point *)
+Example knn_former_witnesses :
+  knn_model [[0;1;1;2]; [1;0;2;1]; [1;2;0;1]; [2;1;1;0]] 1 = [[0;1;1;0]; [1;0;0;1]; [1;0;0;1]; [0;1;1;0]] /\
+  knn_model [[0;0;0;25]; [0;0;0;25]; [0;0;0;25]; [25;25;25;0]] 1 = [[0;1;1;1]; [1;0;1;1]; [1;1;0;1]; [1;1;1;0]].
+Proof. vm_compute. split; reflexivity. Qed.
 
 (* graph_3d_grid hashing, for ALL coordinate sets.  The multiplier m and the 13
    hashing rows with their l1dist are TRANSLATED from the current graph.py
@@ -211,8 +214,35 @@ Print Assumptions anti_symmeterize_adjacency.
 Theorem cut_redundancies_adjacency :
   forall V E u v, (u < V)%nat -> (v < V)%nat ->
   (qadj (cut_redundancies_model V E) u v == qadj E u v)%Q.
-Proof. intros V E u v Hu Hv. unfold cut_redundancies_model. rewrite qadj_mat_edges by assumption. apply Qred_correct. Qed.
+Proof. exact qadj_cut_redundancies. Qed.
 Print Assumptions cut_redundancies_adjacency.
+
+(* after 4b482bf: one stored entry per vertex pair occurring in E (zero sums
+   included), in range, carrying the summed weight *)
+Theorem cut_redundancies_entries :
+  forall V E e, In e (cut_redundancies_model V E) ->
+  (qsrc e < V)%nat /\ (qdst e < V)%nat /\ qw e = Qred (qadj E (qsrc e) (qdst e)) /\ has_edge E (qsrc e) (qdst e) = true.
+Proof. intros V E e H. apply (pmat_edges_entries V (has_edge E) (fun u v => Qred (qadj E u v)) e H). Qed.
+Print Assumptions cut_redundancies_entries.
+
+(* normalize(0) / normalize(1) after 3e5463e, for ALL edge lists: entry (u,v) of
+   the adjacency is divided by the weight leaving u / entering v; the edge list
+   itself (order, endpoints) is unchanged *)
+Theorem normalize0_adjacency :
+  forall E u v, (qadj (normalize0_model E) u v == qadj E u v / out_sum E u)%Q.
+Proof. intros E u v. unfold normalize0_model. apply (qadj_scale_src (out_sum E)). Qed.
+Print Assumptions normalize0_adjacency.
+
+Theorem normalize1_adjacency :
+  forall E u v, (qadj (normalize1_model E) u v == qadj E u v / in_sum E v)%Q.
+Proof. intros E u v. unfold normalize1_model. apply (qadj_scale_dst (in_sum E)). Qed.
+Print Assumptions normalize1_adjacency.
+
+Theorem normalize_keeps_edge_list :
+  forall E, map (fun e => (qsrc e, qdst e)) (normalize0_model E) = map (fun e => (qsrc e, qdst e)) E /\
+            map (fun e => (qsrc e, qdst e)) (normalize1_model E) = map (fun e => (qsrc e, qdst e)) E.
+Proof. intros E. unfold normalize0_model, normalize1_model. rewrite !map_map. split; reflexivity. Qed.
+Print Assumptions normalize_keeps_edge_list.
 
 (* edge lists rebuilt from a matrix hold each vertex pair at most once, in
    range, with the matrix entry as weight and no stored zero *)
